@@ -108,6 +108,49 @@ impl std::io::Write for Chunky {
     fn flush(&mut self) -> std::io::Result<()> { Ok(()) }
 }
 
+/// A sink that fails after `cap` bytes: either with an error, or (mode 1) by accepting nothing more.
+struct Failing { got: std::sync::Arc<std::sync::Mutex<Vec<u8>>>, cap: usize, zero: bool, flushes: std::sync::Arc<std::sync::Mutex<u32>> }
+impl std::io::Write for Failing {
+    fn write(&mut self, b: &[u8]) -> std::io::Result<usize> {
+        let mut g = self.got.lock().unwrap();
+        let room = self.cap - g.len();
+        if room == 0 && !b.is_empty() { return if self.zero { Ok(0) } else { Err(std::io::Error::new(std::io::ErrorKind::Other, "device full")) }; }
+        let n = b.len().min(room);
+        g.extend_from_slice(&b[..n]);
+        Ok(n)
+    }
+    fn flush(&mut self) -> std::io::Result<()> { *self.flushes.lock().unwrap() += 1; Ok(()) }
+}
+
+/// Every failure point of the sink: write_ppm into a writer that takes only the first `cap` bytes - handed over by value,
+/// bare or inside a BufWriter (what save_ppm does with its file) - reports an error unless every byte of the image arrived.
+/// A success that left bytes behind is a truncated file reported as written.
+fn pnm_write_faults(w: u32, h: u32, r: &mut Report) {
+    let buf: Buf2<Color3> = Buf2::new_with((w, h), |x, y| rgb((x * 7 + y) as u8, (y * 13 + 1) as u8, HOSTILE[((x + y) % 9) as usize]));
+    let mut whole = vec![];
+    if !matches!(caught(|| write_ppm(&mut whole, buf.as_slice2())), Ok(Ok(()))) { return; }
+    let total = whole.len();
+    let caps: Vec<usize> = if total <= 400 { (0..=total + 1).collect() } else { (0..40).chain((total - 40..=total + 1).step_by(1)).chain([total / 2, 8191, 8192, 8193].into_iter().filter(|c| *c < total)).collect() };
+    for cap in caps { for mode in 0..4u32 {
+        r.eval();
+        let (zero, buffered) = (mode % 2 == 1, mode / 2 == 1);
+        let got = std::sync::Arc::new(std::sync::Mutex::new(vec![]));
+        let flushes = std::sync::Arc::new(std::sync::Mutex::new(0u32));
+        let sink = Failing { got: got.clone(), cap, zero, flushes: flushes.clone() };
+        let res = if buffered { caught(|| write_ppm(std::io::BufWriter::new(sink), buf.as_slice2())) } else { caught(|| write_ppm(sink, buf.as_slice2())) };
+        let arrived = got.lock().unwrap().clone();
+        let tag = format!("{w}x{h}|{}|{}", if buffered { "BufWriter by value" } else { "bare sink by value" }, if zero { "sink stops accepting" } else { "sink errors" });
+        let case = obj! {"kind" => "pnm-faults", "w" => w, "h" => h};
+        match res {
+            Err(p) => { r.violation(format!("ppm-write-panic|faults|{tag}"), format!("write_ppm panicked on a failing sink (capacity {cap} of {total}): {p}"), case); return; }
+            Ok(Ok(())) if arrived != whole => { r.violation(format!("ppm-write-lost|{tag}"), format!("write_ppm of a {w}x{h} image returned Ok(()) although only {} of {total} bytes reached the sink (capacity {cap})", arrived.len()), case); return; }
+            Ok(Ok(())) => { r.h("faults:ok-complete"); }
+            Ok(Err(_)) if cap >= total => { r.violation(format!("ppm-write-error|faults|{tag}"), format!("write_ppm failed although the sink takes all {total} bytes (capacity {cap})"), case); return; }
+            Ok(Err(_)) => { if whole[..arrived.len()] != arrived[..] { r.violation(format!("ppm-write-garbled|{tag}"), format!("bytes that reached the failing sink are not a prefix of the image file"), case); return; } r.nontrivial(); }
+        }
+    }}
+}
+
 /// A scratch file private to the calling thread, next to the engine binary (not under /tmp).
 fn scratch_file(ext: &str) -> std::path::PathBuf {
     let dir = std::env::current_exe().ok().and_then(|p| p.parent().map(|d| d.join("scratch"))).unwrap_or_else(|| "scratch".into());
@@ -361,6 +404,8 @@ fn run_pnm(cfg: &Cfg) -> ! {
             (a, b) => rep.violation(format!("pnm-text-binary|large|{w}x{h}"), format!("large {w}x{h} image: text decode {:?}, binary decode {:?}", a.map(|x| x.0.map(|i| (i.0, i.1, i.2.len()))), b.map(|x| x.0.map(|i| (i.0, i.1, i.2.len())))), obj! {"kind" => "pnm-rt-owned", "w" => w, "h" => h, "px" => hex(&px.concat())}),
         }
     }
+    // (1b) every failure point of the output sink, for images around and beyond BufWriter's 8 KiB
+    for (w, h) in [(0u32, 0u32), (1, 1), (2, 2), (3, 5), (10, 10), (52, 52), (53, 52), (100, 100)] { pnm_write_faults(w, h, &mut rep); }
     // sub-views (strided), nested
     let mut r = Report::new();
     pnm_roundtrip_subviews(&mut r, true, None);
@@ -558,6 +603,28 @@ fn obj_grammar(idx: u64, r: &mut Report, maxv: usize, maxf: usize) {
     }
 }
 
+/// Very long runs of blank and comment lines, each parsed in a child process (see below).
+fn obj_long_runs(quick: bool, rep: &mut Report) {
+    // very long runs of blank and comment lines (a licence header, a stripped section): the work per skipped line is constant -
+    // in particular no stack. Parsed in a child process on a thread with the default 2 MiB stack, because exhausting the stack
+    // aborts the process; the child reports the decoded mesh.
+    for variant in 0..if quick { 4u32 } else { 6 } {
+        rep.eval();
+        let exe = std::env::current_exe().expect("current_exe");
+        let n = if quick { 300_000u32 } else { 3_000_000 };
+        let out = std::process::Command::new(&exe).args(["obj-long-child", &variant.to_string(), &n.to_string()]).output();
+        let key = format!("obj-wellformed|long-run|variant{variant}");
+        let what_v = ["blank lines", "comment lines", "blank and comment lines alternating, CRLF", "lines of blanks and tabs", "comment lines after the last item, no final newline", "blank lines between every two items"][variant as usize];
+        let case = obj! {"kind" => "obj-long", "variant" => variant as u64, "n" => n as u64};
+        match out {
+            Err(e) => panic!("cannot run child: {e}"),
+            Ok(o) if o.status.success() => { rep.nontrivial(); rep.h("long-run:ok"); }
+            Ok(o) if o.status.code() == Some(3) => rep.violation(key, format!("a well-formed file with a run of {n} {what_v} decoded wrongly: {}", String::from_utf8_lossy(&o.stdout).trim()), case),
+            Ok(o) => rep.violation(key, format!("parsing a well-formed file with a run of {n} {what_v} killed the process ({:?}): {}", o.status, String::from_utf8_lossy(&o.stderr).lines().last().unwrap_or("")), case),
+        }
+    }
+}
+
 fn run_obj(cfg: &Cfg) -> ! {
     let quick = cfg.quick();
     let mut rep = Report::new();
@@ -620,6 +687,30 @@ fn run_obj(cfg: &Cfg) -> ! {
             }
         }));
     }
+    // the first token of a line from a lexicon of things editors, exporters and other platforms put there: byte order marks
+    // (whole, doubled, truncated, glued to an item), non-ASCII blanks and line separators, control characters, unknown and
+    // upper-case items - alone on the line, before a vertex, as the last line without a newline, between two items
+    {
+        let lex: Vec<Vec<u8>> = vec![b"\xEF\xBB\xBF".to_vec(), b"\xEF\xBB\xBF\xEF\xBB\xBF".to_vec(), b"\xEF\xBB".to_vec(), b"\xEF".to_vec(), b"\xEF\xBB\xBFv".to_vec(), b"\xEF\xBB\xBF#".to_vec(), b"v\xEF\xBB\xBF".to_vec(),
+            b"\xFF\xFE".to_vec(), b"\xFE\xFF".to_vec(), "\u{a0}".into(), "\u{2028}".into(), "\u{85}".into(), "\u{200b}".into(), "\u{3000}".into(), b"\0".to_vec(), b"\x0b".to_vec(), b"\x0c".to_vec(), b"\x1a".to_vec(), b"\x7f".to_vec(),
+            b"V".to_vec(), b"F".to_vec(), b"vv".to_vec(), b"vp".to_vec(), b"g".to_vec(), b"usemtl".to_vec(), b"mtllib".to_vec(), b"l".to_vec(), b"p".to_vec(), b"o".to_vec(), b"s".to_vec(), b"\\".to_vec(), b"#".to_vec(), b"##".to_vec(), b"f#".to_vec(), b"v#".to_vec()];
+        let nl = lex.len() as u64;
+        rep.merge(par_range(cfg, nl * 6 * 2, |i, r| {
+            let (t, shape, crlf) = (&lex[(i % nl) as usize], i / nl % 6, i / nl / 6 == 1);
+            let e: &[u8] = if crlf { b"\r\n" } else { b"\n" };
+            let cat = |parts: &[&[u8]]| parts.concat();
+            let bytes = match shape {
+                0 => cat(&[t]),
+                1 => cat(&[t, e]),
+                2 => cat(&[t, b" v 1 2 3", e, b"v 0 0 0", e]),
+                3 => cat(&[b"v 0 0 0", e, b"v 1 0 0", e, b"v 0 1 0", e, t, e, b"f 1 2 3", e]),
+                4 => cat(&[b"v 0 0 0", e, b"v 1 0 0", e, b"v 0 1 0", e, b"f 1 2 3", e, b"  ", t]),
+                _ => cat(&[t, b" 1 2 3", e, t, b" ", t, e, b"v 0 0 0", e]),
+            };
+            obj_totality(&bytes, r, "item-tokens");
+        }));
+    }
+    obj_long_runs(quick, &mut rep);
     let seeds: Vec<Vec<u8>> = vec![
         b"v 0 0 0\nv 1 0 0\nv 0 1 0\nf 1 2 3\n".to_vec(),
         b"f 1 2 3\nv 0 0 0\nv 1 0 0\nv 0 1 0\n".to_vec(),
@@ -655,7 +746,30 @@ fn run_obj(cfg: &Cfg) -> ! {
         &["faces with more than three indices: only totality is judged (the statement speaks of triangles)"])
 }
 
+/// Child process of the long-run family: build the file, parse it on a 2 MiB thread, exit 0 if the mesh is the expected one,
+/// 3 if not (a stack overflow aborts the process instead).
+fn obj_long_child(variant: u32, n: u32) -> ! {
+    let mut text = String::new();
+    let items = ["v 0 0 0", "v 1 0 0", "v 0 1 0", "f 1 2 3"];
+    let run = |text: &mut String, n: u32| for k in 0..n { match variant { 0 | 5 => text.push('\n'), 1 | 4 => text.push_str("# c\n"), 2 => text.push_str(if k % 2 == 0 { "\r\n" } else { "#\r\n" }), _ => text.push_str(" \t \n") } };
+    match variant {
+        4 => { for l in items { text.push_str(l); text.push('\n'); } run(&mut text, n); text.push_str("# end"); }
+        5 => { for l in items { text.push_str(l); text.push('\n'); run(&mut text, n / 4); } }
+        _ => { text.push_str(items[0]); text.push('\n'); run(&mut text, n); for l in &items[1..] { text.push_str(l); text.push('\n'); } }
+    }
+    let h = std::thread::Builder::new().stack_size(2 << 20).spawn(move || {
+        let r = parse_obj(text.bytes());
+        match r { Ok(b) => { let m = b.build(); format!("{:?} {:?}", m.verts.iter().map(|v| v.pos.0).collect::<Vec<_>>(), m.faces.iter().map(|t| t.0).collect::<Vec<_>>()) } Err(e) => format!("error {e:?}") }
+    }).unwrap();
+    let got = h.join().unwrap_or_else(|_| "panicked".into());
+    let want = "[[0.0, 0.0, 0.0], [1.0, 0.0, 0.0], [0.0, 1.0, 0.0]] [[0, 1, 2]]";
+    println!("{got}");
+    std::process::exit(if got == want { 0 } else { 3 });
+}
+
 fn main() {
+    let a: Vec<String> = std::env::args().collect();
+    if a.len() == 4 && a[1] == "obj-long-child" { obj_long_child(a[2].parse().unwrap(), a[3].parse().unwrap()); }
     silence_panics();
     vlib::inflight::install();
     let cfg = Cfg::from_args(|s| if s == "pnm" { "C13".into() } else { "C14".into() });
@@ -683,7 +797,13 @@ fn main() {
                     pnm_roundtrip_subviews(r, true, Some((v[0], v[1], v[2], v[3], v[4], v[5], v[6], v[7])));
                 }
                 "pnm-rt-direct" => { let mut rr = Report::new(); pnm_roundtrip_subviews(&mut rr, false, None); for (_, v) in rr.viols { if v.key.contains("direct") { r.violation(v.key, v.what, v.case); } } }
+                "pnm-faults" => pnm_write_faults(case.get("w").and_then(|j| j.as_u64()).unwrap_or(0) as u32, case.get("h").and_then(|j| j.as_u64()).unwrap_or(0) as u32, r),
                 "obj-total" => obj_totality(&bytes, r, "replay"),
+                "obj-long" => {
+                    let (variant, n) = (case.get("variant").and_then(|j| j.as_u64()).unwrap_or(0), case.get("n").and_then(|j| j.as_u64()).unwrap_or(0));
+                    let o = std::process::Command::new(std::env::current_exe().unwrap()).args(["obj-long-child", &variant.to_string(), &n.to_string()]).output().expect("child");
+                    if !o.status.success() { r.violation(format!("obj-wellformed|long-run|variant{variant}"), format!("child: {:?} {}", o.status, String::from_utf8_lossy(&o.stdout).trim()), case.clone()); }
+                }
                 "obj-expect" => {
                     let idx = case.get("idx").and_then(|j| j.as_u64()).unwrap_or(0);
                     let maxv = case.get("maxv").and_then(|j| j.as_u64()).unwrap_or(3) as usize;
@@ -693,6 +813,11 @@ fn main() {
                 k => machinery_error(&format!("unknown replay kind {k}")),
             }
         });
+    }
+    if cfg.part.starts_with("objlong") {
+        let mut rep = Report::new();
+        obj_long_runs(cfg.quick(), &mut rep);
+        rep.finish(&cfg, "exploration", "well-formed files with one run (or, in one variant, four runs) of 3e5 (thorough 3e6) blank, comment or whitespace-only lines before, between or after the items, parsed on a 2 MiB thread of a child process built like a dev build of a user crate (opt-level 1): the mesh is the one the items describe and the process survives. non-trivial = child exited normally with the expected mesh.", &["stack size 2 MiB = Rust's default for spawned threads"]);
     }
     if cfg.part.starts_with("pnm") { run_pnm(&cfg) } else { run_obj(&cfg) }
 }
